@@ -40,6 +40,16 @@ ImplColfilter(r, L) ==
         xe == SymmPad(r, m)
     IN  FromSrc(r + 2 * m - L + 1, L, r, LAMBDA v, t : LET u == L - 1 - t IN xe[v + u])
 
+\* any other `mode`: F.conv2d(X, h, padding=(m, 0)) - the column is extended by m = L div 2 ZEROS on both sides
+\* (the level-1 stage of ScatLayer(mode='zero') and DTCWTForward(mode='zero', J=1); the reference package has no such mode,
+\* the declarative meaning is "the same 'valid' convolution of the zero-extended column")
+RefColfilterZero(r, L) ==
+    LET m2 == L \div 2
+    IN  FromSrc(r + 2 * m2 - L + 1, L, r, LAMBDA v, i : SrcExt("zero", r, v + L - 1 - i - m2))
+ImplColfilterZero(r, L) ==
+    LET m == L \div 2
+    IN  FromSrc(r + 2 * m - L + 1, L, r, LAMBDA v, t : LET src == v + (L - 1 - t) - m IN IF src >= 0 /\ src < r THEN src ELSE -1)
+
 (* ============================ level >= 2: coldfilt ======================= *)
 \* reference coldfilt(X, ha, hb); pol = (sum(ha*hb) > 0)
 RefColdfilt(r, m, pol) ==
